@@ -11,13 +11,14 @@ NOT decided: the string arithmetic of relative paths (posixpath on names that ar
 name matches exactly one child (needs C04), _matches' comparison of values.
 """
 import ast
+import re
 
 from ..astutil import calls_in, call_name, where
 from ..cfg import build_cfg
 from ..dataflow import def_value, reaching_defs
 from ..logic import known, entails, reach_avoiding
 from ..model import AnalysisError, unparse, walk_no_nested
-from ..symtext import Expander, strip_order_keeping, effect_calls
+from ..symtext import Expander, strip_order_keeping, effect_calls, canon_text
 
 DECIDED = [
     "TRAV-1 itersections consumes its work list at one end and fills it at the other (FIFO = breadth first); the only loop exit is the empty list",
@@ -294,10 +295,26 @@ def run(prog, rep):
                        "with the remaining components; an absolute path continues at <self>.document with the leading separator removed; "
                        "_match_iterable returns the first object for which _matches(obj, key) holds and raises ValueError otherwise")
     sg = build_cfg(sbp)
-    sx = Expander(sbp, sg)
+    sx = Expander(sbp, sg, inline=prog)
     m0, pth = sbp.params[0], sbp.params[1]
     sep = sorted(parsed)[0] if parsed else "/"
-    first = "%s.split(%r)[0]" % (pth, sep)
+
+    def ct(e, n=None, x=sx, fn=sbp):
+        """canonical text: locals expanded, helpers inlined, split/partition and template spellings unified; the lookup helpers are
+        written without their receiver (they may be methods, static methods or module functions)"""
+        t = canon_text(prog, fn, x.expand(e, n))
+        return re.sub(r"\b[A-Za-z_][A-Za-z_0-9]*\._(match_iterable|matches)\(", r"_\1(", t)
+
+    def catoms(n):
+        from ..astutil import atoms_of
+        out = []
+        for test, pol, br in sg.dominating_conditions(n):
+            if pol in ("true", "false"):
+                out += [(t0, p0) for t0, p0 in atoms_of(test, pol == "true", lambda e, br=br: ct(e, br))]
+        return out
+    first = "%s.partition(%r)[0]" % (pth, sep)
+    rest = "%s.partition(%r)[2]" % (pth, sep)
+    own_child = ("_match_iterable(%s.sections, %s)" % (m0, first), "_match_iterable(%s._sections, %s)" % (m0, first))
     n_step = 0
     for n in sg.nodes:
         vals = []
@@ -308,8 +325,8 @@ def run(prog, rep):
                 vals.append(n.ast.value)
         for v in vals:
             n_step += 1
-            t = sx.text(v, n)
-            atoms = [(tt, p) for tt, p, _ in _atoms(sg, n, sx)]
+            t = ct(v, n)
+            atoms = catoms(n)
             if ("%s.startswith(%r)" % (pth, sep), True) in atoms:
                 good = t == "%s.document" % m0
             elif ("%s == '..'" % first, True) in atoms:
@@ -317,49 +334,50 @@ def run(prog, rep):
             elif ("%s == '.'" % first, True) in atoms:
                 good = t == m0
             else:
-                good = t in ("%s._match_iterable(%s.sections, %s)" % (m0, m0, first), "%s._match_iterable(%s._sections, %s)" % (m0, m0, first))
+                good = t in own_child
             rep.check(good, "PATH-2", "path step `%s`" % t[:50], "parent / self / own child by name",
-                      "under %s the path step is `%s`" % ([a for a in atoms if "==" in a[0]], t), where(sbp, n.ast),
+                      "under %s the path step is `%s`" % ([a0 for a0 in atoms if "==" in a0[0]], t), where(sbp, n.ast),
                       witness="'../x' or './x' or 'a/b' resolves from the wrong node")
     rep.floor("PATH-2", n_step, 3, "step assignments in _get_section_by_path")
-    recs = [e.call for e in effect_calls(prog, sbp, lambda c: isinstance(c.func, ast.Attribute) and c.func.attr == "_get_section_by_path")]
+    recs = effect_calls(prog, sbp, lambda c: isinstance(c.func, ast.Attribute) and c.func.attr == "_get_section_by_path")
     rep.floor("PATH-2", len(recs), 2, "continuations of the path lookup")
-    for c in recs:
-        recv = unparse(c.func.value)
-        arg = unparse(c.args[0]) if c.args else "?"
+    for e0 in recs:
+        c = e0.call
+        recv = canon_text(prog, e0.func, c.func.value)
+        arg = canon_text(prog, e0.func, c.args[0]) if c.args else "?"
         if recv == "%s.document" % m0:
             rep.check(arg == "%s[1:]" % pth, "PATH-2", "absolute path continues at the document", arg, "absolute paths continue with `%s`" % arg, where(sbp, c))
         else:
-            rep.check(arg == "%r.join(%s.split(%r)[1:])" % (sep, pth, sep), "PATH-2", "recursion on the remaining components", arg,
+            rep.check(arg == rest, "PATH-2", "recursion on the remaining components", arg,
                       "the recursion continues with `%s`, not with the remaining components" % arg, where(sbp, c), witness="a component is skipped or repeated")
     rets = [n for n in sg.nodes if n.kind == "return" and n.ast.value is not None]
-    last = [sx.text(n.ast.value, n) for n in rets]
-    rep.check(any(t in ("%s._match_iterable(%s.sections, %s)" % (m0, m0, first), "%s._match_iterable(%s._sections, %s)" % (m0, m0, first)) for t in last), "PATH-2",
+    last = [ct(n.ast.value, n) for n in rets]
+    rep.check(any(t in own_child for t in last), "PATH-2",
               "a single component is looked up among the own children", "ok", "the last path component is not looked up in self.sections: %s" % last, sbp.where)
     mi = S.lookup_method("_match_iterable")
     rep.saw_function(mi)
     mg = build_cfg(mi)
     mx = Expander(mi, mg)
     mrets = [n for n in mg.nodes if n.kind == "return" and n.ast.value is not None]
-    it, key = mi.params[1], mi.params[2]
+    moff = 1 if mi.has_self else 0          # the helper may be a method, a static method or a module function
+    it, key = mi.params[moff], mi.params[moff + 1]
     ok = bool(mrets)
     for n in mrets:
         t = mx.text(n.ast.value, n)
 
         def clm(leaf, br, mx=mx, mi=mi, it=it, key=key):
-            return "M" if mx.text(leaf, br) == "%s._matches(EACH(%s), %s)" % (mi.params[0], it, key) else None
+            return "M" if ct(leaf, br, mx, mi) == "_matches(EACH(%s), %s)" % (it, key) else None
         ok = ok and t == "EACH(%s)" % it and known(mg, n, clm, lambda a: a["M"], ["M"], with_node=True)
     raises = [n for n in mg.nodes if n.kind == "raise"]
     ok = ok and len(raises) >= 1 and all(isinstance(r.ast.exc, ast.Call) and call_name(r.ast.exc) == "ValueError" for r in raises)
     rep.check(ok, "PATH-2", "_match_iterable returns the first matching element or raises ValueError", "ok",
               "_match_iterable no longer returns the first element with _matches(element, key) / raises ValueError when none matches", mi.where,
               witness="a lookup returns a non matching object or None")
-    px = Expander(pbp)
-    prets = [px.text(n.value) for n in walk_no_nested(pbp.node) if isinstance(n, ast.Return) and n.value is not None]
+    px = Expander(pbp, inline=prog)
+    prets = [ct(n.value, None, px, pbp) for n in walk_no_nested(pbp.node) if isinstance(n, ast.Return) and n.value is not None]
     psep = sorted(pparsed)[0] if pparsed else ":"
     m0p, pp = pbp.params[0], pbp.params[1]
-    wantp = ["%s._match_iterable(%s._get_section_by_path(%s.split(%r)[0]).properties, %r.join(%s.split(%r)[1:]))" % (m0p, m0p, pp, psep, psep, pp, psep),
-             "%s._match_iterable(%s._get_section_by_path(%s.partition(%r)[0]).properties, %s.partition(%r)[2])" % (m0p, m0p, pp, psep, pp, psep)]
+    wantp = ["_match_iterable(%s._get_section_by_path(%s.partition(%r)[0]).properties, %s.partition(%r)[2])" % (m0p, pp, psep, pp, psep)]
     rep.check(any(w in prets for w in wantp), "PATH-2", "get_property_by_path = section lookup, then the own properties by name", "ok",
               "get_property_by_path returns %s" % prets, pbp.where, witness="a Property path resolves inside another Section")
 
@@ -412,9 +430,38 @@ def run(prog, rep):
     rep.extra["evaluations"] = len(rep.items)
 
 
+def _strip_lookup_receiver(t):
+    """the lookup helpers written without their receiver (method, static method or module function)"""
+    return re.sub(r"\b[A-Za-z_][A-Za-z_0-9]*\._(match_iterable|matches)\(", r"_\1(", t)
+
+
+class _X(object):
+    """Expander whose texts name the lookup helpers without receiver"""
+    def __init__(self, x):
+        self.x = x
+
+    def text(self, e, n=None):
+        return _strip_lookup_receiver(self.x.text(e, n))
+
+    def expand(self, e, n=None):
+        return self.x.expand(e, n)
+
+    def __getattr__(self, name):
+        return getattr(self.x, name)
+
+
+def _comprehension_of_matches(e, me):
+    """(element text, iterable text, condition text) when e is `(v for v in <me>._sections if <cond>)` / the list form; else None"""
+    if isinstance(e, (ast.GeneratorExp, ast.ListComp)) and len(e.generators) == 1 and isinstance(e.generators[0].target, ast.Name) \
+            and len(e.generators[0].ifs) == 1 and isinstance(e.elt, ast.Name) and e.elt.id == e.generators[0].target.id:
+        gen = e.generators[0]
+        return gen.target.id, unparse(gen.iter), _strip_lookup_receiver(unparse(gen.ifs[0]))
+    return None
+
+
 def _found_objects_rule(rep, f, rule, relation_flags):
     g = build_cfg(f)
-    x = Expander(f, g)
+    x = _X(Expander(f, g))
     me = f.params[0]
     acc = [n.targets[0].id for n in walk_no_nested(f.node) if isinstance(n, ast.Assign) and isinstance(n.targets[0], ast.Name)
            and isinstance(n.value, ast.List) and not n.value.elts]
@@ -431,14 +478,36 @@ def _found_objects_rule(rep, f, rule, relation_flags):
             results.append((n, x.text(n.ast.value, n), "collect"))
     rep.floor(rule, len(results), 2, "objects handed out by %s" % f.name)
     child = ("EACH(%s._sections)" % me, "EACH(%s.sections)" % me)
+    comp_loops = 0
     for n, t, how in results:
+        # first match / all matches written as a comprehension over the own children:  next((s for s in <own> if _matches(s, ..)), None)
+        # and  list(<the same>) [or None]  /  [s for s in <own> if _matches(s, ..)] [or None]
+        ve = x.expand(n.ast.value if n.kind == "return" else n.ast.value.args[0] if isinstance(n.ast, ast.Expr) else n.ast.value, n)
+        core = ve.values[0] if isinstance(ve, ast.BoolOp) and isinstance(ve.op, ast.Or) and len(ve.values) == 2 \
+            and isinstance(ve.values[1], ast.Constant) and ve.values[1].value is None else ve
+        comp = None
+        if isinstance(core, ast.Call) and isinstance(core.func, ast.Name) and core.func.id == "next" and len(core.args) == 2 \
+                and isinstance(core.args[1], ast.Constant) and core.args[1].value is None:
+            comp = _comprehension_of_matches(core.args[0], me)
+        elif isinstance(core, ast.Call) and isinstance(core.func, ast.Name) and core.func.id == "list" and len(core.args) == 1:
+            comp = _comprehension_of_matches(core.args[0], me)
+        elif isinstance(core, ast.ListComp):
+            comp = _comprehension_of_matches(core, me)
+        if comp is not None and relation_flags is None:
+            var, it, cond = comp
+            good = it in ("%s._sections" % me, "%s.sections" % me) and (cond.startswith("_matches(%s, " % var) or cond == "_matches(%s)" % var)
+            comp_loops += 1 if good else 0
+            rep.check(good, rule, "%s: %s matching children (comprehension)" % (f.name, how), "own children filtered by _matches",
+                      "%s hands out `%s`: not the own children filtered by _matches(child, ...)" % (f.name, t[:80]), where(f, n.ast),
+                      witness="%s returns a section with another name/type" % f.name)
+            continue
         def flag_known(flag):
             return known(g, n, lambda lf, br: "F" if x.text(lf, br) == flag else None, lambda a: a["F"], ["F"], with_node=True)
 
         def match_known(obj):
             def clf(lf, br):
                 tt = x.text(lf, br)
-                return "M" if tt.startswith("%s._matches(%s, " % (me, obj)) or tt == "%s._matches(%s)" % (me, obj) else None
+                return "M" if tt.startswith("_matches(%s, " % obj) or tt == "_matches(%s)" % obj else None
             return known(g, n, clf, lambda a: a["M"], ["M"], with_node=True)
         if t in child:
             good = match_known(t) and (relation_flags is None or flag_known("children"))
@@ -467,7 +536,7 @@ def _found_objects_rule(rep, f, rule, relation_flags):
                 # a loop carried local: the match test must be about the value that is handed out
                 def same_value(lf, br, t=t):
                     tt = x.text(lf, br)
-                    if (tt.startswith("%s._matches(%s, " % (me, t)) or tt == "%s._matches(%s)" % (me, t)) \
+                    if (tt.startswith("_matches(%s, " % t) or tt == "_matches(%s)" % t) \
                             and reaching_defs(g, br, t) == reaching_defs(g, n, t):
                         return "M"
                     return None
@@ -478,6 +547,8 @@ def _found_objects_rule(rep, f, rule, relation_flags):
         else:
             rep.fail(rule, "%s|%s-unclassified" % (f.short, how), "%s hands out `%s`, which is none of the enumerated result forms" % (f.name, t[:80]), where(f, n.ast))
     loops = [n for n in g.nodes if n.kind == "for" and x.text(n.ast.iter, n) in ("%s._sections" % me, "%s.sections" % me)]
+    if comp_loops and not loops:
+        loops = [None]          # the scan of the own children is the comprehension
     rep.check(len(loops) == 1, rule, "%s inspects the own children" % f.name, "one loop over self._sections", "%s does not loop over its own child sections" % f.name, f.where)
     finals = [n for n in g.nodes if n.kind == "return" and n.ast.value is not None and _only_acc(n.ast.value, acc)]
     rep.check(bool(finals) or not acc, rule, "%s returns the collected matches" % f.name, "ok", "%s collects matches but never returns them" % f.name, f.where)
